@@ -35,6 +35,7 @@ func c01(c *Ctx) {
 	c06R1(c, "R7/C06.R1")
 	sUpToDate(c, "R7/C06.R2", "(*Raft).requestVote", "RequestVoteRequest", "RequestVoteResponse", true, false)
 	c06R3(c, "R7/C06.R3")
+	sVoteIdentity(c, "R7/S-VOTEID")
 }
 
 // incrementsOf collects the "+1" instructions that feed a counter value
